@@ -22,7 +22,7 @@ RULE = ("Sandbox root/{secret.txt, static-secret.txt, static2/s.txt, static/...}
         "trailing slash (plus the empty path) x Files/Pages x WSGI/ASGI, directory given absolute (full depth; also with a custom handle_404 application and non-default cache settings), relative to a changed cwd and "
         "package-relative (depth 2); one file sits at a path longer than 255 characters. "
         "Non-trivial = path containing '..', '.', an empty or dotted segment, or touching a directory; paths are distinct by construction.")
-RULE += ' Also: 2-5 requests in flight together on one app object (each client gets what it gets alone); page names containing dots (v1.2.html at /v1.2), the app mounted below root paths, an undecodable query string or malformed Host next to every own path. Names with an upper-case %2E, a directory named %2E%2E; names of at most 255 characters that are longer than 255 bytes, paths under 4096 characters and over 4096 bytes. A one-byte file.'
+RULE += ' Also: 2-5 requests in flight together on one app object (each client gets what it gets alone); page names containing dots (v1.2.html at /v1.2), the app mounted below root paths, an undecodable query string or malformed Host next to every own path. Names with an upper-case %2E, a directory named %2E%2E; names of at most 255 characters that are longer than 255 bytes, paths under 4096 characters and over 4096 bytes. A one-byte file. Files below dot-named directories.'
 ASSUMPTIONS = [
     "resolution is lexical (symbolic links are not part of the workload)",
     "where the statement is silent — a trailing slash after something that is not a directory — {what the slash-less path serves, 404} are both accepted",
